@@ -679,9 +679,20 @@ func newFo(cfg FoCfg, s *sched, stat *StatRec, t0 func() time.Time) foInst {
 		kind = "ShardedMap"
 	}
 
-	be := NewBackend(kind, bc)
+	realKind := kind
+	if kind == "NoOp" {
+		realKind = "ShardedMap"
+	}
+
+	be := NewBackend(realKind, bc)
+
+	var inner cache.ReadWriter = be.Raw().(cache.ReadWriter)
+	if kind == "NoOp" {
+		inner = cache.NoOp{} // `be` stays empty and is only there for the snapshot
+	}
+
 	fc := cache.FailoverConfig{
-		Name: foName, Backend: &gateRW{s: s, inner: be.Raw().(cache.ReadWriter), t0: t0},
+		Name: foName, Backend: &gateRW{s: s, inner: inner, t0: t0},
 		FailedUpdateTTL: ttl(cfg.FailTTL), UpdateTTL: ttl(cfg.UpdTTL), SyncUpdate: cfg.SyncUpdate,
 		SyncRead: cfg.SyncRead, MaxStaleness: time.Duration(cfg.MaxStale) * u, FailHard: cfg.FailHard,
 		Logger: logger, Stats: st, ObserveMutability: cfg.Mutability,
